@@ -147,6 +147,26 @@ def offset_canon(t, B: Term, is_offset, used=None, plain_view=False):
                 if used is not None:
                     used.append(t)
                 return ("sub", ("slice", B if plain_view else t[1], ix[0], None, None), it)
+    if t[0] == "cmp" and t[1] in ("<", "<=", ">", ">=", "==", "!="):
+        # len(B) < s + X   is   len(B[s:]) < X     (any arrangement of the same affine comparison)
+        try:
+            d = lin(t[2]) - lin(t[3])
+        except Exception:
+            d = None
+        if d is not None:
+            for k, c in list(d.t.items()):
+                if not (call_is(k, "len") and strip(k[2][0]) == B and c in (1, -1)):
+                    continue
+                for sym, v in list(d.t.items()):
+                    if is_offset(sym) and v == -c:
+                        rest = d - Lin(0, {k: c, sym: -c})
+                        view_len = ("call", ("ext", "len"), (("slice", B if plain_view else k[2][0], sym, None, None),), ())
+                        rhs = from_lin(-rest if c == 1 else rest)
+                        if rhs is not None:
+                            flip = {"<": ">", "<=": ">=", ">": "<", ">=": "<=", "==": "==", "!=": "!="}
+                            if used is not None:
+                                used.append(t)
+                            return ("cmp", t[1] if c == 1 else flip[t[1]], view_len, rhs)
     if t[0] == "bin" and t[1] in ("-", "+"):
         l = lin(t)
         lens = [k for k, v in l.t.items() if call_is(k, "len") and strip(k[2][0]) == B]
